@@ -101,12 +101,19 @@ def apply_damage(root, single, view, damage, tree, P=16384):
             os.remove(s["path"])
             os.symlink(os.path.join(os.path.dirname(s["path"]), "no-such-target"), s["path"])
             s["present"], s["len"], s["flips"] = False, 0, []
-        elif d["kind"] == "wrong":             # same name, same length, EVERY byte different (another file's content)
-            with open(s["path"], "rb") as fh:
-                b = fh.read()
-            table = bytes(((x - 1 + 97) % 255) + 1 if x else 7 for x in range(256))
-            with open(s["path"], "wb") as fh:
-                fh.write(b.translate(table))
+        elif d["kind"] in ("wrong", "linkto"):
+            if d["kind"] == "linkto":
+                # the member becomes a HARD LINK of another member (same length, every byte different by construction:
+                # the other member's content is this one's translated) - what a de-duplicating tool gone wrong leaves
+                other = state[index[tuple(tree["files"][d["arg"]]["path"])]]
+                os.remove(s["path"])
+                os.link(other["path"], s["path"])
+            else:                              # same name, same length, EVERY byte different (another file's content)
+                with open(s["path"], "rb") as fh:
+                    b = fh.read()
+                table = bytes(((x - 1 + 97) % 255) + 1 if x else 7 for x in range(256))
+                with open(s["path"], "wb") as fh:
+                    fh.write(b.translate(table))
             # named by one changed byte per piece that overlaps the file: the first byte of every overlap, for the v1
             # stream pieces and for file-local (v2) pieces alike
             vi = index[key]
